@@ -265,11 +265,20 @@ def list_post(ctx, st, result):
         ctx.oblige("post", "elements-are-adapted-as-list-items", all(e[4].get("list_item") is True for e in log))
     else:
         ctx.oblige("post", "untyped-list-kept-as-is" + tag, isinstance(out, list) and all(x is y for x, y in zip(out, d["elems"])))
+    list_frame(ctx, d, tag)
+
+
+def list_frame(ctx, d, tag):
+    # acceptance is compositional: a Union tries its members one after the other on the *same* value, so a member that rejects a value part-way must leave it as given
+    # (List[float] turned [1, 'a'] into [1.0, 'a'] before rejecting it, and Tuple[int, str] then refused the 1.0: Union order decided acceptance; fixed)
+    if isinstance(d["val"], list):
+        ctx.oblige("frame", "the-list-given-is-not-modified(a copy is adapted),whether-the-value-is-accepted-or-rejected" + tag, len(d["val"]) == d["n"] and all(x is y for x, y in zip(d["val"], d["elems"])))
 
 
 def list_raises(ctx, st, exc):
     d = st.data
     tag = f"[List<-{d['container']}x{d['n']}]"
+    list_frame(ctx, d, tag)
     if exc.origin == UNEXPECTED:
         ctx.oblige("raises", "rejected-for-its-shape=>not-list-like" + tag, d["container"] not in ("list", "tuple"))
     elif exc.origin == "element-rejected":
@@ -395,11 +404,20 @@ def dict_post(ctx, st, result):
             ctx.oblige("post", "conform:every-key-has-the-declared-key-type" + tag, all(type(k) is want_key for k in out.keys()),
                        note="Dict[str, V]: keys are not checked - an int key stays an int")
             ctx.oblige("post", "result-holds-the-adapted-values-under-their-keys" + tag, len(out) == len(d["keys"]) and all(any(v is e[3] for e in log) for v in out.values()))
+    dict_frame(ctx, d, tag)
+
+
+def dict_frame(ctx, d, tag):
+    # as for lists: a mapping that is rejected part-way (or accepted) is left as it was given - another Union member may be tried on it
+    if isinstance(d["val"], dict):
+        ctx.oblige("frame", "the-mapping-given-is-not-modified(a copy is adapted),whether-the-value-is-accepted-or-rejected" + tag,
+                   list(d["val"]) == list(d["keys"]) and all(d["val"][k] is d["vals"][k] for k in d["keys"]))
 
 
 def dict_raises(ctx, st, exc):
     d = st.data
     tag = f"[Dict[{d['key_type']},V]<-{d['container']}:{d['keys']}]"
+    dict_frame(ctx, d, tag)
     if exc.origin == UNEXPECTED:
         ctx.oblige("raises", "rejected-for-its-shape=>not-a-mapping" + tag, d["container"] != "dict")
     elif exc.origin == "element-rejected":
